@@ -4,7 +4,6 @@ package main
 
 import (
 	"fmt"
-	"path/filepath"
 	"strings"
 
 	"verifharness/internal/vt"
@@ -34,10 +33,7 @@ func grpcPreMapping(pre map[string]interface{}, idx int) string {
 func scnRenderGrpcYAML(c map[string]interface{}, dir string) string {
 	var b strings.Builder
 	id := vt.Int(c["id"])
-	b.WriteString("variable_sources:\n")
-	for _, s := range []string{"users", "items"} {
-		fmt.Fprintf(&b, "  - type: file/csv\n    name: %s\n    file: %s\n    fields: [id]\n", s, filepath.Join(dir, s+".csv"))
-	}
+	b.WriteString(sourcesYAML(dir))
 	b.WriteString("calls:\n")
 	reqs := vt.Map(c["reqs"])
 	for _, name := range sortedNames(reqs) {
@@ -66,10 +62,7 @@ func scnRenderGrpcYAML(c map[string]interface{}, dir string) string {
 	b.WriteString("scenarios:\n")
 	for _, s := range vt.List(c["scens"]) {
 		sc := vt.Map(s)
-		fmt.Fprintf(&b, "  - name: %s\n    weight: %d\n    min_waiting_time: 0\n    requests:\n", vt.Str(sc["name"]), vt.Int(sc["weight"]))
-		for j, it := range vt.List(sc["items"]) {
-			fmt.Fprintf(&b, "      - %s\n", itemString(vt.Map(it), id+j))
-		}
+		b.WriteString(scenYAML(sc, id))
 	}
 	return b.String()
 }
